@@ -3,7 +3,9 @@
   `stochasticNet` / `stochasticPost`, with the C19 invariant as the history-indexed predicate),
   and what the loop's invariant says about the history at the horizon.
 -/
-import AcnProofs.Lemmas.StochasticLoop
+import AcnModel.StochasticLoop
+import AcnProofs.Lemmas.EventCoreNetH
+import AcnProofs.Lemmas.StochasticRun
 
 namespace Acn.Stoch
 open Acn Acn.EventCore
